@@ -52,7 +52,7 @@ mut("07-decrypt-skips-hash", "C07", "sha1_prefix", ("internal/aes_ige/aes.go",
 mut("07-reqpq-unchecked-kind", "C07", "reply-kind:ReqPQ", ("internal/mtproto/objects/methods.go",
  '''	resp, ok := data.(*ResPQ)
 	if !ok {
-		return nil, errors.New("got invalid response type: " + reflect.TypeOf(data).String())
+		return nil, errors.Errorf("got invalid response type: %T", data)
 	}
 
 	return resp, nil
@@ -492,11 +492,15 @@ mut("15N-parsetag-helper-split", "C14", None, ("internal/encoding/tl/tag.go", "f
 mut("20N-host-cut-with-indexbyte", "C20", None, ("telegram/deeplinks/utils.go", "	i := strings.IndexRune(u.Path, '/')", "	i := strings.IndexByte(u.Path, '/')"))
 
 mut("01-read-empty-buffer-at-end", "C01", "zero-length-is-no-read", ("internal/encoding/tl/cursor_r.go", "	if len(buf) == 0 {\n		// nothing to read; a zero-length Read at the end of the input would answer io.EOF\n		return\n	}\n", ""))
-mut("01-named-unmarshaler-without-id", "C01", "by-name:id-consumed", (DEC, "		if _, handWritten := res.(Unmarshaler); handWritten {\n			if crc := d.PopCRC(); d.err == nil && crc != o.CRC() {", "		if _, handWritten := res.(Unmarshaler); handWritten && false {\n			if crc := d.PopCRC(); d.err == nil && crc != o.CRC() {"))
+mut("01-named-unmarshaler-without-id", "C01", "by-name:id-consumed", (DEC, "	if o, isObject := res.(Object); isObject {\n		if _, handWritten := res.(Unmarshaler); handWritten {\n			if crc := d.PopCRC(); d.err == nil && crc != o.CRC() {\n				d.err = fmt.Errorf(\"invalid crc code: %#v, want: %#v\", crc, o.CRC())\n			}\n			if d.err != nil {\n				return errors.Wrapf(d.err, \"decode %T\", res)\n			}\n		}\n	}\n", ""))
 
 mut("07-pq-primality-not-tested", "C07", "guard:resPQ.pq", (H, "	if pq.Cmp(big.NewInt(3)) <= 0 || pq.ProbablyPrime(20) { //nolint:gomnd certainty of the primality test", "	if pq.Cmp(big.NewInt(3)) <= 0 {"))
 mut("07-pq-lower-bound-dropped", "C07", "guard:resPQ.pq", (H, "	if pq.Cmp(big.NewInt(3)) <= 0 || pq.ProbablyPrime(20) { //nolint:gomnd certainty of the primality test", "	if pq.ProbablyPrime(20) {"))
 mut("07N-pq-check-in-two-steps", "C07", None, (H, "	if pq.Cmp(big.NewInt(3)) <= 0 || pq.ProbablyPrime(20) { //nolint:gomnd certainty of the primality test\n		return errors.New(\"handshake: pq is not a product of two primes\")\n	}\n", "	if pq.Cmp(big.NewInt(1)) <= 0 {\n		return errors.New(\"handshake: pq is too small\")\n	}\n	if pq.ProbablyPrime(32) {\n		return errors.New(\"handshake: pq is prime\")\n	}\n"))
+
+mut("15-depth-counted-not-checked", "C15", "recursion:gated", (DEC, "	if d.depth > maxNesting {\n		d.err = fmt.Errorf(\"values are nested deeper than %v levels\", maxNesting)\n		return\n	}\n", ""))
+mut("15-gzip-decoded-as-own-message", "C15", "recursion:gated", ("internal/mtproto/objects/types.go", "	t.Obj, err = d.DecodeNestedObject(obj)\n", "	t.Obj, err = tl.DecodeUnknownObject(obj)\n"))
+mut("15N-smaller-depth-limit", "C15", None, ("internal/encoding/tl/cursor_r.go", "const maxNesting = 1000", "const maxNesting = 256"))
 
 json.dump(M, open('/verif/selftest/mutations.json', 'w'), indent=1, ensure_ascii=False)
 print(len(M), "mutations")
